@@ -6,6 +6,7 @@
 -/
 import PasfmtModel.Proofs.ReconProps
 import PasfmtModel.Props.C10
+import PasfmtModel.Proofs.SpacingLayout
 
 namespace Pasfmt.C08
 
@@ -119,5 +120,72 @@ theorem spacingRule_le_one (k : Kind) (prev prevReal next : Option Kind) (cur : 
   · constructor
     · simp only [OptLe1]; omega
     · cases nextSp <;> simp [OptLe1]; omega
+
+theorem spacingGo_le_one (prev prevReal : Option Kind) (cur : Nat) (l : List (Kind × Nat))
+    (hc : cur ≤ 1) (hl : ∀ p ∈ l, p.2 ≤ 1) : ∀ v ∈ spacingGo prev prevReal cur l, v ≤ 1 := by
+  induction l generalizing prev prevReal cur with
+  | nil => intro v hv; simp [spacingGo] at hv
+  | cons x rest ih =>
+    obtain ⟨k, sp⟩ := x
+    unfold spacingGo
+    simp only
+    have hrule := spacingRule_le_one k prev prevReal (rest.head?.map (·.1)) cur (rest.head?.map (·.2))
+    have hfinal : (spacingRule k prev prevReal (rest.head?.map (·.1)) cur (rest.head?.map (·.2))).1.getD cur ≤ 1 := by
+      cases h1 : (spacingRule k prev prevReal (rest.head?.map (·.1)) cur (rest.head?.map (·.2))).1 with
+      | none => simpa using hc
+      | some v => have := hrule.1; rw [h1] at this; simpa [OptLe1] using this
+    cases rest with
+    | nil =>
+      intro v hv; simp at hv; subst hv; exact hfinal
+    | cons y rest' =>
+      obtain ⟨k', sp'⟩ := y
+      intro v hv
+      simp only [List.mem_cons] at hv
+      rcases hv with rfl | hv
+      · exact hfinal
+      · have hsp' : sp' ≤ 1 := hl (k', sp') (by simp)
+        have hr2 := hrule.2
+        simp only [List.head?_cons, Option.map_some] at hr2 hv ⊢
+        refine ih _ _ _ ?_ (fun p hp => hl p (by simp [hp])) v hv
+        generalize (spacingRule k prev prevReal (some k') cur (some sp')).2 = after at hr2 ⊢
+        unfold nextCur
+        cases after with
+        | none => exact hsp'
+        | some a =>
+          simp only [OptLe1] at hr2
+          simp only
+          split <;> omega
+
+theorem spacingResult_le_one_of_clamped (l : List (Kind × Nat)) (hl : ∀ p ∈ l, p.2 ≤ 1) :
+    ∀ v ∈ spacingResult l, v ≤ 1 := by
+  unfold spacingResult
+  split
+  · intro v hv; simp at hv
+  · rename_i k0 sp0 rest
+    have h := spacingGo_le_one none none sp0 ((k0, sp0) :: rest) (hl (k0, sp0) (by simp)) hl
+    split
+    · intro v hv; simp at hv
+    · rename_i a r heq
+      intro v hv
+      rcases List.mem_cons.1 hv with rfl | hv'
+      · omega
+      · exact h v (by rw [heq]; simp [hv'])
+
+theorem layoutEq_clamp (l : List (Kind × Nat)) : LayoutEq l (l.map fun p => (p.1, min p.2 1)) := by
+  induction l with
+  | nil => exact .nil
+  | cons x r ih =>
+    obtain ⟨k, a⟩ := x
+    exact .cons (by omega) ih
+
+/-- **After `TokenSpacing` no token is preceded by more than one space** (whatever the original
+    spacing; token lists without inline line comments — the token after one starts a new line) -/
+theorem spacing_at_most_one (l : List (Kind × Nat)) (hni : noInlineLine l) : ∀ v ∈ spacingResult l, v ≤ 1 := by
+  rw [spacingResult_layout l _ (layoutEq_clamp l) hni]
+  apply spacingResult_le_one_of_clamped
+  intro p hp
+  rw [List.mem_map] at hp
+  obtain ⟨q, _, rfl⟩ := hp
+  simp only; omega
 
 end Pasfmt.C08
